@@ -129,8 +129,18 @@ def h_from(vf, node, fn, args):
      'std::result::Result::expect', 'std::option::Option::unwrap_unchecked', 'std::result::Result::unwrap_unchecked')
 def h_unwrap(vf, node, fn, args):
     v = args[0]
+    if isinstance(v, T.Tm) and T.is_app(v, 'opt_get'):
+        v = index_term(v[2][0], v[2][1])          # v.get(i).unwrap() == v[i] (panics out of range, as indexing does)
     vf.discipline.append(('unwrap', tt(vf, v) if not isinstance(v, Ref) else tt(vf, v), node.get('sp'), vf.owner()))
     return v
+
+
+@reg('OPTION', 'core::slice::get', 'std::vec::Vec::get', 'std::slice::get')
+def h_slice_get(vf, node, fn, args):
+    """v.get(i): Some(&v[i]) iff i < len(v).  Kept as opt_get(v, i); `is:Some` / `is:None` tests and Some-payload bindings on it
+    are resolved to the bounds test and to v[i] (vflow.variant_test / bind)."""
+    v = vf.deref(args[0])
+    return T.app('opt_get', tt(vf, v), tt(vf, args[1]))
 
 
 @reg('ALIAS', 'std::result::Result::map_err')
